@@ -324,8 +324,6 @@ func cmdFeat(args []string) int {
 						tag = "[pcev-without-moves] "
 					case strings.HasPrefix(n, "transactions expand=effectiveVolumes") && !c.PCEV:
 						tag = "[tx-expand-effective-unchecked] "
-					case strings.Contains(n, "balance[USD]>0") && c.Moves && !c.PCEV:
-						tag = "[accounts-pit-balance-needs-pcev] "
 					}
 					if tag != "" && seenTag[tag] {
 						continue
